@@ -136,6 +136,9 @@ func scenarioC18(r *Run) {
 		}
 		if err == nil {
 			sharedKey = ck
+			if t.Bool(1, 2, "c18.key.ops") {
+				ck.Ops = []cose.KeyOp{cose.KeyOpVerify, cose.KeyOpDeriveBits, cose.KeyOpSign}
+			}
 			r.Probe("shared-key-converted-from-go-key")
 		}
 	} else {
